@@ -489,10 +489,15 @@ DueNow(a) == {x \in a.exp : x.due /\ (a.cfg.cancelable => a.rt[x.r].st = "fin" /
 \* a copy of a span that is entitled to several (one per parent): its absence is also a C02 matter
 MultiCopy(a, x) == \E y \in a.exp \cup a.opt \cup a.dl : y.n = x.n /\ (y.r # x.r \/ y.ci # x.ci)
 CopyMissing(a, st, late) ==
-  LET m == {x \in late : MultiCopy(a, x)} IN
-  IF m # {} THEN ViolK(st, "C02", "copy-missing", {[n |-> x.n, r |-> x.r, par |-> x.par] : x \in m},
-                       IF \A x \in m : a.rt[x.r].cid \in a.cut THEN "cut" ELSE None)
-  ELSE st
+  LET m == {x \in late : MultiCopy(a, x)}
+      \* a copy of a captured set that was pushed under a parent: C17's "one subtree under each parent"
+      \* (when the trace is cut the loss is the listed cut finding of C01 / C03, not a matter of the set)
+      ps == {x \in late : x.own /\ Has(a.ls, x.sc) /\ a.rt[x.r].cid \notin a.cut}
+      st1 == IF m # {} THEN ViolK(st, "C02", "copy-missing", {[n |-> x.n, r |-> x.r, par |-> x.par] : x \in m},
+                                  IF \A x \in m : a.rt[x.r].cid \in a.cut THEN "cut" ELSE None)
+             ELSE st IN
+  IF ps # {} THEN Viol(st1, "C17", "pushed-set-copy-missing", {[n |-> x.n, r |-> x.r, par |-> x.par] : x \in ps})
+  ELSE st1
 
 CallFlush(a, e) == [a EXCEPT !.fl = Put(@, e.t, DueNow(a))]
 RetFlush(a, e) ==
@@ -697,6 +702,18 @@ CycEnd(a, e) ==
              "not-delivered-by-cycle", {[n |-> x.n, r |-> x.r] : x \in late}, k)
   ELSE a1
 
+\* "Delivery needs no further call": nobody has called flush() and the reporter has been left alone
+\* for many report intervals (free-running executions), or two background cycles have run (model)
+Idle(a, e) ==
+  LET late == DueNow(a)
+      a1 == CopyMissing(a, a, late)
+      k == IF \A x \in late : a.rt[x.r].cid \in a.cut THEN "cut" ELSE None
+      adl == {x \in late : AdProp(a, x.n) # None} IN
+  IF late # {}
+  THEN ViolK(a1, IF adl # {} THEN AdProp(a, (CHOOSE x \in adl : TRUE).n) ELSE IF a.cfg.cancelable THEN "C03" ELSE "C01",
+             "not-delivered-without-a-flush", {[n |-> x.n, r |-> x.r] : x \in late}, k)
+  ELSE a1
+
 \* at quiescence (no call in progress, two full cycles since the last one): the collector keeps an
 \* entry only for sampled roots that are still open, and no receiver of an exited thread (C08)
 Stats(a, e) ==
@@ -805,6 +822,7 @@ AbsStep(a, e) ==
     [] e.ev = "push"      -> Push(a, e)
     [] e.ev = "drain"     -> Drain(a, e)
     [] e.ev = "stats"     -> Stats(a, e)
+    [] e.ev = "idle"      -> Idle(a, e)
     [] OTHER              -> a
 
 RECURSIVE AbsRun(_, _, _)
